@@ -1,0 +1,21 @@
+//go:build verif
+
+package kernel
+
+import (
+	"github.com/MixinNetwork/mixin/common"
+	"github.com/MixinNetwork/mixin/kernel/internal"
+)
+
+// VerifMockRunAggregators keeps SetupNode from starting the per-chain background loops
+// (the switch the repository's own tests use).
+func VerifMockRunAggregators(mock bool) { internal.ToggleMockRunAggregators(mock) }
+
+// VerifReloadConsensusState is the marker write the kernel performs after finalizing a
+// single-transaction snapshot.
+func (node *Node) VerifReloadConsensusState(s *common.Snapshot, tx *common.VersionedTransaction) error {
+	return node.reloadConsensusState(s, tx)
+}
+
+// VerifStop ends the topology statistics goroutine started by SetupNode.
+func (node *Node) VerifStop() { close(node.done) }
